@@ -12,6 +12,10 @@ def build(tier):
             obs.append(trees.tree_ob("C17.a", sk, "rel", dict(base, recursive=rec, auto_ex=False, has_prefix=False), fixexcl=(sk != "S1"),
                                      timeout=400 if quick else 2400))
     obs.append(trees.tree_ob("C17.a", "S1", "rel", dict(base, recursive=False, auto_ex=True), fixexcl=True, timeout=400 if quick else 2400, note=" (prefix)"))
+    # documenting another input (directory or lone file) before, in the same run with the same Settings object
+    for (sk, rec) in ((("S1", False), ("S2", True)) if quick else (("S1", False), ("S2", True), ("S3", True), ("S2b", True))):
+        obs.append(trees.tree_ob("C17.a", sk, "hist", dict(base, recursive=rec, auto_ex=False), fixexcl=True, fixrev=True, timeout=400 if quick else 2400,
+                                 note=" (other input processed first with the same settings object)"))
     # C17.c / C12 lone file: title and module name do not depend on the absolute location (base name only)
     obs.append(trees.tree_ob("C17.c", "S3", "file", dict(ext_t=False, ext_m=False, excl_root=False, recursive=False, auto_ex=False, out_i=0),
                              fixrev=True, timeout=400 if quick else 2400, note=" (lone input file)"))
